@@ -14,8 +14,21 @@ import time
 VERIF = os.path.dirname(os.path.dirname(os.path.abspath(__file__)))
 
 
-def sh(cmd, **kw):
-    return subprocess.run(cmd, shell=True, capture_output=True, text=True, **kw)
+def sh(cmd, timeout=None, **kw):
+    """run a shell command in a session of its own; on timeout the whole process group is killed (a check left hanging by a
+    seeded change must not keep the pipe open and block the matrix)"""
+    import signal
+
+    p = subprocess.Popen(cmd, shell=True, stdout=subprocess.PIPE, stderr=subprocess.PIPE, text=True, start_new_session=True, **kw)
+    try:
+        out, err = p.communicate(timeout=timeout)
+    except subprocess.TimeoutExpired:
+        try:
+            os.killpg(p.pid, signal.SIGKILL)
+        except OSError:
+            pass
+        out, err = p.communicate()
+    return subprocess.CompletedProcess(cmd, p.returncode, out, err)
 
 
 def one(d):
@@ -43,7 +56,7 @@ def one(d):
             res = {}
             for c in checks:
                 t0 = time.time()
-                r = sh("cd %s && VERIF_REPO=%s VERIF_OUT=%s timeout 1500 /venv/bin/python run.py %s --tier quick" % (VERIF, wt, out, c))
+                r = sh("cd %s && VERIF_REPO=%s VERIF_OUT=%s /venv/bin/python run.py %s --tier quick" % (VERIF, wt, out, c), timeout=1500)
                 sigs = re.findall(r"signature=(\{.*?\}) count", r.stdout)
                 res[c] = {"exit": r.returncode, "violations": len(re.findall(r"^VIOLATION", r.stdout, re.M)), "first_signature": sigs[0] if sigs else None,
                           "wall_s": round(time.time() - t0, 1)}
